@@ -404,6 +404,130 @@ def _hoist_walrus(s, out):
             root = getattr(s, fld)
 
 
+_MATCH_COUNTER = [0]
+
+
+def _pure_subject(e):
+    return isinstance(e, ast.Name) or _chain_text(e) is not None
+
+
+def _pattern_cond(pat, subj, binds):
+    """condition under which `pat` matches the (re-evaluable) expression `subj`; captures are appended to binds as
+    (name, expression).  None: a pattern kind that is not lowered."""
+    import copy
+    S = lambda: copy.deepcopy(subj)
+    if isinstance(pat, ast.MatchValue):
+        return ast.Compare(left=S(), ops=[ast.Eq()], comparators=[pat.value])
+    if isinstance(pat, ast.MatchSingleton):
+        return ast.Compare(left=S(), ops=[ast.Is()], comparators=[ast.Constant(pat.value)])
+    if isinstance(pat, ast.MatchAs):
+        if pat.pattern is None:
+            if pat.name is not None:
+                binds.append((pat.name, S()))
+            return ast.Constant(True)
+        c = _pattern_cond(pat.pattern, subj, binds)
+        if c is not None and pat.name is not None:
+            binds.append((pat.name, S()))
+        return c
+    if isinstance(pat, ast.MatchOr):
+        inner = []
+        conds = [_pattern_cond(p, subj, inner) for p in pat.patterns]
+        if any(c is None for c in conds) or inner:
+            return None
+        return ast.BoolOp(op=ast.Or(), values=conds)
+    if isinstance(pat, ast.MatchClass):
+        if pat.patterns:
+            return None
+        conds = [ast.Call(func=ast.Name(id='isinstance', ctx=ast.Load()), args=[S(), pat.cls], keywords=[])]
+        for attr, sub in zip(pat.kwd_attrs, pat.kwd_patterns):
+            c = _pattern_cond(sub, ast.Attribute(value=S(), attr=attr, ctx=ast.Load()), binds)
+            if c is None:
+                return None
+            if not (isinstance(c, ast.Constant) and c.value is True):
+                conds.append(c)
+        return conds[0] if len(conds) == 1 else ast.BoolOp(op=ast.And(), values=conds)
+    return None
+
+
+def _lower_match(s, out):
+    """C26: `match x: case P1: B1 ... case _: Bn` with value / singleton / class / or / capture / wildcard patterns is the
+    if / elif chain it abbreviates (first matching case wins; a guard is the last conjunct)."""
+    subj = s.subject
+    pre = []
+    if not _pure_subject(subj):
+        _MATCH_COUNTER[0] += 1
+        tmp = '__match%d' % _MATCH_COUNTER[0]
+        pre.append(ast.Assign(targets=[ast.Name(id=tmp, ctx=ast.Store())], value=subj))
+        subj = ast.Name(id=tmp, ctx=ast.Load())
+    arms = []
+    for case in s.cases:
+        binds = []
+        cond = _pattern_cond(case.pattern, subj, binds)
+        if cond is None:
+            return False
+        if case.guard is not None:
+            if binds:
+                return False
+            cond = ast.BoolOp(op=ast.And(), values=[cond, case.guard])
+        body = [ast.Assign(targets=[ast.Name(id=n, ctx=ast.Store())], value=v) for n, v in binds] + list(case.body)
+        arms.append((cond, body))
+    node = None
+    for cond, body in reversed(arms):
+        if isinstance(cond, ast.Constant) and cond.value is True:
+            node = body
+            continue
+        node = [ast.If(test=cond, body=body, orelse=node or [])]
+    res = pre + (node or [])
+    for x in res:
+        ast.copy_location(x, s)
+        ast.fix_missing_locations(x)
+        for y in ast.walk(x):
+            if not hasattr(y, 'lineno'):
+                y.lineno, y.col_offset = s.lineno, s.col_offset
+    out.extend(_canon_block([_Expr().visit(x) for x in res]))
+    return True
+
+
+def _has_continue(stmts):
+    for st in stmts:
+        for x in ast.walk(st):
+            if isinstance(x, ast.Continue):
+                return True
+    return False
+
+
+def _rotate_walrus_while(s, out):
+    """C27: `while (x := E) <op> Y: B`  ->  `x = E; while x <op> Y: B; x = E` (no continue in B, no else): the loop the
+    assignment expression abbreviates."""
+    import copy
+    if s.orelse or _has_continue(s.body):
+        return None
+    hit = _leftmost_walrus(s.test)
+    if hit is None:
+        return None
+    w, parent, pf, idx = hit
+    if not isinstance(w.target, ast.Name):
+        return None
+    # further assignment expressions in the test are not handled
+    if sum(isinstance(x, ast.NamedExpr) for x in ast.walk(s.test)) != 1:
+        return None
+    def assign():
+        a = ast.Assign(targets=[ast.Name(id=w.target.id, ctx=ast.Store())], value=copy.deepcopy(w.value))
+        ast.copy_location(a, s)
+        ast.fix_missing_locations(a)
+        return a
+    rep = ast.copy_location(ast.Name(id=w.target.id, ctx=ast.Load()), w)
+    if parent is None:
+        s.test = rep
+    elif idx is None:
+        setattr(parent, pf, rep)
+    else:
+        getattr(parent, pf)[idx] = rep
+    out.append(assign())
+    s.body = list(s.body) + [assign()]
+    return s
+
+
 def _canon_block(stmts):
     out = []
     for s in stmts:
@@ -417,6 +541,10 @@ def _canon_block(stmts):
                     continue
             else:
                 s = ast.copy_location(ast.Assign(targets=[s.target], value=s.value, lineno=s.lineno, col_offset=s.col_offset), s)
+        if isinstance(s, ast.Match) and _lower_match(s, out):
+            continue
+        if isinstance(s, ast.While):
+            _rotate_walrus_while(s, out)
         _hoist_walrus(s, out)
         # C19: `v = next((E for T in IT if C), D)` -> first-match loop with else
         lowered = _lower_next(s)
@@ -565,7 +693,77 @@ def _tail_duplicate(stmts):
     return out
 
 
+def _inline_partials(fdef):
+    """C28: `e = partial(F, a, b)` (bound once in the function; a, b constants, parameters or locals bound once, or f-strings /
+    %-formats over those) and later `e(x, y)`  ->  `F(a, b, x, y)`: the call the partial object abbreviates."""
+    import copy
+    stores = {}
+    for x in ast.walk(fdef):
+        if isinstance(x, ast.Name) and isinstance(x.ctx, (ast.Store, ast.Del)):
+            stores[x.id] = stores.get(x.id, 0) + 1
+        elif isinstance(x, (ast.FunctionDef, ast.AsyncFunctionDef, ast.Lambda)) and x is not fdef:
+            return
+    params = {a.arg for a in fdef.args.args + fdef.args.kwonlyargs + fdef.args.posonlyargs}
+
+    def stable(e):
+        if isinstance(e, ast.Constant):
+            return True
+        if isinstance(e, ast.Name):
+            return (e.id in params and stores.get(e.id, 0) == 0) or stores.get(e.id, 0) == 1 or e.id not in stores
+        if isinstance(e, ast.JoinedStr):
+            return all(stable(v.value) if isinstance(v, ast.FormattedValue) else True for v in e.values)
+        if isinstance(e, ast.BinOp) and isinstance(e.op, ast.Mod):
+            return stable(e.left) and stable(e.right)
+        if isinstance(e, ast.Tuple):
+            return all(stable(x) for x in e.elts)
+        return False
+    parts = {}
+    for st in ast.walk(fdef):
+        if isinstance(st, ast.Assign) and len(st.targets) == 1 and isinstance(st.targets[0], ast.Name) \
+                and stores.get(st.targets[0].id) == 1 and isinstance(st.value, ast.Call) and st.value.args \
+                and ((isinstance(st.value.func, ast.Name) and st.value.func.id == 'partial')
+                     or (isinstance(st.value.func, ast.Attribute) and st.value.func.attr == 'partial'
+                         and isinstance(st.value.func.value, ast.Name) and st.value.func.value.id == 'functools')) \
+                and isinstance(st.value.args[0], ast.Name) and all(stable(a) for a in st.value.args[1:]) \
+                and all(k.arg is not None and stable(k.value) for k in st.value.keywords):
+            parts[st.targets[0].id] = (st, st.value)
+    if not parts:
+        return
+    # every use of the name must be a direct call
+    uses = {}
+    for x in ast.walk(fdef):
+        if isinstance(x, ast.Name) and isinstance(x.ctx, ast.Load) and x.id in parts:
+            uses[x.id] = uses.get(x.id, 0) + 1
+    calls = {}
+    for x in ast.walk(fdef):
+        if isinstance(x, ast.Call) and isinstance(x.func, ast.Name) and x.func.id in parts:
+            calls[x.func.id] = calls.get(x.func.id, 0) + 1
+    ok = {n for n in parts if uses.get(n, 0) == calls.get(n, 0)}
+    if not ok:
+        return
+
+    class T(ast.NodeTransformer):
+        def visit_Call(self, node):
+            self.generic_visit(node)
+            if isinstance(node.func, ast.Name) and node.func.id in ok:
+                p = parts[node.func.id][1]
+                node.func = copy.deepcopy(p.args[0])
+                node.args = [copy.deepcopy(a) for a in p.args[1:]] + node.args
+                node.keywords = [copy.deepcopy(k) for k in p.keywords
+                                 if k.arg not in {q.arg for q in node.keywords}] + node.keywords
+            return node
+
+        def visit_Assign(self, node):
+            if any(node is parts[n][0] for n in ok):
+                return ast.copy_location(ast.Pass(), node)
+            self.generic_visit(node)
+            return node
+    T().visit(fdef)
+    ast.fix_missing_locations(fdef)
+
+
 def canon_function(fdef):
+    _inline_partials(fdef)
     t = _Expr()
     fdef.body = [t.visit(s) for s in fdef.body]
     fdef.body = _canon_block(fdef.body)
